@@ -557,7 +557,32 @@ func bundleKeys(ctx context.Context, b *Bundle, size uint32, db kvStore, logger 
 		// NOTE: this section issues a GET on remote store for this key and has been seen as the
 		// limiting factor on the throughput of the index building job.
 		// By skipping it on already existing root keys, we shall call this about 2.5x less often.
-		leaves, err := cafs.LeavesForHash(b.BlobStore(), root, size, "")
+		// read the root blob, insisting a bit when the store fails: a transient failure is no corruption
+		var (
+			leaves []cafs.Key
+			data   []byte
+		)
+		err = backoff.Retry(func() error {
+			rdr, e := b.BlobStore().Get(ctx, key)
+			if e != nil {
+				if errors.Is(e, status.ErrNotExists) {
+					return backoff.Permanent(e)
+				}
+
+				return e
+			}
+			defer func() {
+				_ = rdr.Close()
+			}()
+			data, e = io.ReadAll(rdr)
+
+			return e
+		},
+			backoff.WithContext(defaultBackoff(), ctx),
+		)
+		if err == nil {
+			leaves, err = cafs.LeafKeys(root, data, size)
+		}
 		if err != nil {
 			// The root key is somehow corrupted. This might happen with objects created with previous versions of datamon:
 			// ignore the leaves and just return the root key.
